@@ -185,7 +185,7 @@ def stepRQ (pool types ents : String) : String :=
         lingering := lingering }
     let unalloc : Nat → Int := fun t => match tsa[t]? with | some (i, b, _) => (i + b : Nat) | none => 0
     let keys := List.range ts.length
-    let traces := (allSorted ents).map (fun sorted => showTrace (runQueue stubPool stub unalloc keys sorted).tr)
+    let traces := (allSorted ents).map (fun sorted => showTrace (runQueue stubPool stub unalloc keys sorted))
     "|".intercalate traces.eraseDups
 
 def step (line : String) : String :=
